@@ -276,3 +276,25 @@ _run_before_r01_6 = run
 def run(ctx):
     _run_before_r01_6(ctx)
     ctx.guard(r01_6)
+
+
+_run_before_c12_r12_3 = run
+
+
+def run(ctx):
+    _run_before_c12_r12_3(ctx)
+    # the step the fixed-step solve starts with is the requested dt (a dt silently raised to dt_min stops the error from shrinking), the
+    # outputs start as [y0] and there is one per output time (rule of C12)
+    from . import c12
+    ctx.guard(c12.r12_3)
+
+
+_run_before_c13_r13_1 = run
+
+
+def run(ctx):
+    _run_before_c13_r13_1(ctx)
+    # nothing is kept on the solver or the SDE wrapper between evaluations (a diffusion memoised across calls loses its graph to
+    # the state, and the Milstein correction differentiated from it is silently zero; rule of C13)
+    from . import c13
+    ctx.guard(c13.r13_1)
